@@ -88,13 +88,40 @@ static enum bufferevent_filter_result h_filter(struct evbuffer *src, struct evbu
 static enum bufferevent_filter_result h_filter_in(struct evbuffer *src, struct evbuffer *dst, ev_ssize_t lim, enum bufferevent_flush_mode mode, void *ctx) { return h_filter(src, dst, lim, mode, ctx, 0); }
 static enum bufferevent_filter_result h_filter_out(struct evbuffer *src, struct evbuffer *dst, ev_ssize_t lim, enum bufferevent_flush_mode mode, void *ctx) { return h_filter(src, dst, lim, mode, ctx, 1); }
 
+#ifdef VP_SINK_BYTES
+/* A STATEFUL output filter (block cipher / compressor / framing style): in BEV_NORMAL mode it consumes everything it is
+ * offered but keeps a solver-chosen tail of up to 2 bytes to itself; in BEV_FLUSH / BEV_FINISHED mode it emits what it
+ * holds.  Bytes pass through unchanged, so the stream the underlying bufferevent gets must equal what was written. */
+static unsigned char s_held[2]; static size_t s_nheld; static int s_calls, s_flush_calls;
+static enum bufferevent_filter_result s_filter_out(struct evbuffer *src, struct evbuffer *dst, ev_ssize_t lim,
+    enum bufferevent_flush_mode mode, void *ctx)
+{
+	unsigned char buf[VP_SINK_BYTES + 2]; size_t k = evbuffer_get_length(src), tot, keep, j, emit;
+	(void)lim; (void)ctx;
+	s_calls++;
+	if (mode != BEV_NORMAL) s_flush_calls++;
+	VP_ASSERT(k <= VP_SINK_BYTES, "harness bound");
+	for (j = 0; j < 2; j++) buf[j] = s_held[j];
+	if (k) { unsigned char tmp[VP_SINK_BYTES]; int n = evbuffer_remove(src, tmp, k); VP_ASSERT(n == (int)k, "harness: filter could not take its bytes");
+		for (j = 0; j < VP_SINK_BYTES; j++) if (j < k) buf[s_nheld + j] = tmp[j]; }
+	tot = s_nheld + k;
+	keep = mode == BEV_NORMAL ? (size_t)vp_range(0, 2) : 0;
+	if (keep > tot) keep = tot;
+	emit = tot - keep;
+	if (emit) { int n = evbuffer_add(dst, buf, emit); VP_ASSERT(n == 0, "harness: filter could not emit its bytes"); }
+	for (j = 0; j < 2; j++) s_held[j] = (j < keep) ? buf[emit + j] : 0;
+	s_nheld = keep;
+	return (emit || k) ? BEV_OK : BEV_NEED_MORE;
+}
+#endif
+static bufferevent_filter_cb g_out_filter = NULL;
 static void setup_filter(void)
 {
 	static int base_obj;
 	struct bufferevent *f;
 	g_under = bufferevent_socket_new((struct event_base *)&base_obj, FD, 0);
 	__CPROVER_assume(g_under != NULL);
-	f = bufferevent_filter_new(g_under, h_filter_in, h_filter_out, 0, NULL, &g_ctx);
+	f = bufferevent_filter_new(g_under, h_filter_in, g_out_filter ? g_out_filter : h_filter_out, 0, NULL, &g_ctx);
 	__CPROVER_assume(f != NULL);
 	u_install(F, f);
 	u_hook = app_hook;
@@ -269,3 +296,43 @@ void harness_filter_eof(void)
 	VP_ASSERT_NO_LOCKS("filter eof");
 	VP_WITNESS("EOF passed on");
 }
+
+#ifdef VP_SINK_BYTES
+/* C17 "for any ... flush mode": write n bytes through the stateful filter, then bufferevent_flush(EV_WRITE, mode):
+ * after the flush the underlying output holds exactly the bytes written, in order -- nothing stays inside the filter */
+#ifndef C17_FLUSH_MODE
+#define C17_FLUSH_MODE BEV_FLUSH
+#endif
+#ifndef C17_N1
+#define C17_N1 3
+#endif
+#ifndef C17_N2
+#define C17_N2 2
+#endif
+void harness_filter_flush_stateful(void)
+{
+	unsigned char d[VP_SINK_BYTES];
+	/* sizes are concrete (the loops of be_filter_process_output are driven by buffer lengths); bytes and the size of the
+	 * tail the filter keeps are symbolic */
+	size_t n = C17_N1, n2 = C17_N2, i, tot;
+	int r;
+	g_out_filter = s_filter_out;
+	setup_filter();
+	vp_bytes(d, VP_SINK_BYTES);
+	r = bufferevent_write(u_bev[F], d, n);
+	VP_ASSERT(r == 0, "C17: bufferevent_write on a filter failed");
+	if (n2) { r = bufferevent_write(u_bev[F], d + n, n2); VP_ASSERT(r == 0, "C17: bufferevent_write on a filter failed"); }
+	tot = n + n2;
+	VP_ASSERT(evbuffer_get_length(u_bev[F]->output) == 0, "C17: the filter was offered the queued bytes and takes them all");
+	VP_ASSERT(evbuffer_get_length(g_under->output) + s_nheld == tot, "C17: bytes lost before the flush");
+	r = bufferevent_flush(u_bev[F], EV_WRITE, C17_FLUSH_MODE);
+	VP_ASSERT(s_flush_calls >= 1, "C17: flush did not call the output filter (it may hold data although the output buffer is empty)");
+	VP_ASSERT(s_nheld == 0 && evbuffer_get_length(g_under->output) == tot, "C17: bytes written before the flush were not all handed to the underlying bufferevent");
+	for (i = 0; i < VP_SINK_BYTES; i++)
+		if (i < tot) VP_ASSERT(vp_sink_at(g_under->output, i) == d[i], "C17: bytes delivered after the flush differ from the bytes written (order/loss)");
+	VP_ASSERT(vp_ev_io_pending(&g_under->ev_write), "C17: flushed data queued on the underlying bufferevent but its write event is not pending");
+	VP_ASSERT_NO_LOCKS("filter flush");
+	if (s_calls >= 2 && s_flush_calls == 1) VP_WITNESS("filter held a tail and emitted it on flush");
+	VP_WITNESS("flushed");
+}
+#endif
